@@ -61,7 +61,7 @@ func runRedef(c *Ctx) {
 			}
 		})
 		flagged := false
-		for _, l := range p.LitsInter(g9.Call.Block()) {
+		for _, l := range p.ILits(g9.Inner.Block()) {
 			if l.Kind == "bool" && l.Pol {
 				if fr, ok := core.AsFieldLoad(l.Of); ok && fr.Owner == "argBuilder" && fr.Field == flagField && flagField != "" {
 					flagged = true
@@ -72,7 +72,7 @@ func runRedef(c *Ctx) {
 			"candidate-input root edges are added only in redefine mode (the flag the planner sets)", fmt.Sprintf("flag field=%q guarded=%v", flagField, flagged))
 		// the filter call and the nil check
 		var fcall *ssa.Call
-		gfn := g9.Fn // the function that adds the edge: the graph builder or a helper extracted from it
+		gfn := g9.Inner.Parent() // the function that adds the edge: the graph builder or a helper extracted from it
 		for _, ci := range core.Calls(gfn) {
 			cc := ci.Common()
 			if !cc.IsInvoke() && cc.StaticCallee() == nil && core.TypeStr(cc.Value.Type()) == "FilterFunc" {
@@ -123,7 +123,7 @@ func runRedef(c *Ctx) {
 			if start == nil {
 				c.R.Undecided("REDEF-R1", "graphBuilder|filter-gates-root-edge", "graphBuilder", g9.Pos, "cannot locate the iteration start")
 			} else {
-				leak := core.Reachable(start, g9.Call.Block(), allowed)
+				leak := core.Reachable(start, g9.Inner.Block(), allowed)
 				c.R.Add("REDEF-R1", "graphBuilder|filter-gates-root-edge", "graphBuilder", g9.Pos, !leak && len(allowed) >= 2,
 					"every path that connects a candidate input to the root passes `no input filter` or `filter(value) == true` (must-pass edges)",
 					ternary(!leak, fmt.Sprintf("edge unreachable once the %d gate edges are cut", len(allowed)), "a path reaches the root edge without passing the filter"))
